@@ -78,14 +78,16 @@ type Cfg struct {
 var settingsClasses = map[string]map[string]string{
 	"s0":   {},
 	"s1":   {"k": "v1"},
-	"s2":   {"k": "v2", "k2": "x"},
+	// value classes are realised by strings that any normalisation (trimming, case folding, re-encoding) would
+	// change: configurations are compared as exact strings
+	"s2":   {"k": " v2 ", "k2": "x\n", "ключ": "значение 值"},
 	"sdef": pipeline.DefaultDLQ.Settings,
 }
 
 var condClasses = map[string]string{
 	"none": "",
 	"c1":   `{{ eq .Metadata.kind "a" }}`,
-	"c2":   `{{ eq .Metadata.kind "b" }}`,
+	"c2":   " {{ eq .Metadata.kind \"b\" }}\n", // as a YAML block scalar delivers it: trailing newline
 }
 
 func settingsOf(class string) map[string]string {
